@@ -371,6 +371,37 @@ class Run:
                 return False
         return True
 
+    def interp_crosscheck(self, stream, cases, impl, model, k=12):
+        """thorough tier: the compiled oracle (Lean compiler + runtime) is trusted to evaluate the model's definitions as the
+        kernel's reduction would; re-evaluate a sample of cases with the Lean INTERPRETER (`lean --run` on the driver's root
+        module) and compare line by line. A difference means the executable used for the model side cannot be believed."""
+        roots = self._driver_roots([stream.comp])
+        if not roots:
+            return
+        idx = [i for i in range(len(cases)) if len(model[i]) == len(cases[i])][:k]
+        if not idx:
+            return
+        sample = [cases[i] for i in idx]
+        if stream.hint:
+            sample = [stream.hint(c, impl[i]) if len(impl[i]) == len(c) else c for c, i in zip(sample, idx)]
+        path = os.path.join(LEAN, "Driver", *roots[0].split(".")) + ".lean"
+        t = time.time()
+        flat = "".join(l + "\n" for c in sample for l in c)
+        lines, note = run_proc(["bash", "-c", f'cd "{LEAN}" && exec lake env lean --run "{path}" "$@"', "interp"] + stream.oracle_args,
+                               flat, 900)
+        want = [l for i in idx for l in model[i]]
+        self.log(f"interpreter cross-check {stream.name}: {len(idx)} cases, {len(want)} lines, {time.time()-t:.1f}s {note}")
+        self.cov.setdefault("interpreter_crosscheck", {})[stream.name] = dict(cases=len(idx), lines=len(want), agree=lines == want)
+        if lines is None:
+            self.notes.append(f"interpreter cross-check of {stream.name} could not run: {note[:200]}")
+            return
+        if lines != want:
+            j = next((n for n, (a, b) in enumerate(zip(lines, want)) if a != b), min(len(lines), len(want)))
+            body = (f"# the compiled oracle oracle_{stream.comp} and the Lean interpreter disagree on the model's output\n"
+                    f"# first difference at output line {j}: interpreter `{lines[j] if j < len(lines) else '<missing>'}` "
+                    f"compiled `{want[j] if j < len(want) else '<missing>'}`\n#stream {stream.name}\n" + flat)
+            self.violation(f"{stream.name}-interp", body, True, "compiled oracle and interpreter disagree")
+
     # ---- correspondence side
     def correspond(self, stream, n_cases):
         rng = random.Random(f"{self.seed}/{self.prop}/{stream.name}")
@@ -386,6 +417,8 @@ class Run:
                     o = stream.impl([cases[i]])[0]
                     impl[i] = o
         model = stream.model(cases, impl)
+        if self.tier == "thorough" and type(stream).model is Stream.model:
+            self.interp_crosscheck(stream, cases, impl, model)
         self.log(f"stream {stream.name}: {len(cases)} cases ({len(corpus)} corpus), "
                  f"{sum(len(c) for c in cases)} ops, {time.time()-t:.1f}s")
         st = dict(cases=len(cases), ops=sum(len(c) for c in cases), mismatches=0, predicate_failures=0,
